@@ -231,6 +231,11 @@ def socks5AuthHook (L : Lib) (V : Option Validator) (authd : List Nat) (cid : Na
   | some v =>
     if v.accepts L (L.sockDecode u) (L.sockDecode p) then (cid :: authd, true) else (authd, false)
 
+/-- header fields (besides Host) of the CONNECT that mitmproxy itself sends to the upstream proxy for a client's tunnel
+    (upstream mode): `_upstream_proxy.HttpUpstreamProxy.start_handshake` builds a NEW request (`Host` only, then the
+    `http_connect_upstream` hook) — nothing of the client's CONNECT head is copied, whatever it carried -/
+def upstreamConnectFields (_clientFields : List Hdr) : List Hdr := []
+
 /-! ### the connection machine -/
 
 inductive Phase where
